@@ -11,6 +11,7 @@ CONSTANTS
   TracerStyles = {"none"}
   Threadeds = {FALSE}
   Givens = {"empty", "one", "blank"}
+  Blockeds = {"none"}
   Flags = {}
 INVARIANT Restored
 INVARIANT OutputLedger
